@@ -243,6 +243,8 @@ def run_tierb(ctx, spec):
         cases = {}
         for n in range(spec['events']):
             c = gen_case(rng, pairs)
+            if c['name'] in ('delete_id', 'bind', 'set_app_id', 'set_title', 'get_layer_surface', 'get_registry'):
+                c['name'] += '_x'
             c['iface'] = 'vq_' + c['iface']      # the whole plugin runs in tier B: keep the random closures free of protocol semantics (bind, delete_id)
             # strings must survive a C string and gdb's target charset: no NUL, valid UTF-8 (the generator's strings are)
             seq = script.event(conns[c['side']], 1, c['dir'] == 'send', 0 if c['func'] in ('wl_closure_invoke', 'wl_closure_send') else 1,
